@@ -39,6 +39,8 @@ type c09Case struct {
 	Pre       []c09Call `json:"pre,omitempty"`
 	PreMerge  bool      `json:"preMerge,omitempty"`
 	PreReopen bool      `json:"preReopen,omitempty"`
+	// a Backup (single goroutine, into a scratch directory) is the last call before the goroutines start
+	PreBackup bool `json:"preBackup,omitempty"`
 }
 
 var c09Keys = []string{"k", "j", "ab", "c", "b\x00", "zz"}
@@ -246,6 +248,18 @@ func runC09(c *c09Case) (feat map[string]bool, fail *kvh.Fail) {
 			}
 		}
 	}
+	if c.PreBackup {
+		// Backup is not one of the calls the statement mixes, but it may well lie in the past of the database the
+		// goroutines use (under MMap it shrinks every file and invalidates the mapping bounds)
+		bdir := filepath.Join(base, "backup")
+		err := db.Backup(bdir)
+		_ = os.RemoveAll(bdir)
+		if err != nil {
+			_ = db.Close()
+			return feat, &kvh.Fail{Sig: "internal-error", Msg: fmt.Sprintf("prehistory (single goroutine): Backup: %v", err)}
+		}
+		feat["goroutines-start-after-a-backup"] = true
+	}
 	raceBefore := raceLogSize()
 	var wg sync.WaitGroup
 	var firstErr, firstPanic atomic.Value
@@ -343,7 +357,7 @@ func runC09(c *c09Case) (feat map[string]bool, fail *kvh.Fail) {
 func TestC09(t *testing.T) {
 	st := kvh.StatsFor("C09")
 	st.SetRule(c09Rule,
-		"a race detector only sees races on the schedules that are executed; Close, Backup and the background merge ticker are not in the statement's call list and are not mixed in",
+		"a race detector only sees races on the schedules that are executed; Close, Backup and the background merge ticker are not in the statement's call list and are not mixed in (a Backup may be the last call of the single-threaded prehistory)",
 		"documented error sets: nil everywhere, plus ErrKeyNotFound for Get/Batch.Get and ErrMergeIsProgress / ErrMergeRatioUnreached / ErrMergeFileIDConflict for Merge; anything else (ErrIndexUpdateFailed, ErrDataFileNotFound, ErrNoEnoughSpaceForMerge, EOF/CRC errors) is an internal-inconsistency error",
 		"a goroutine holding an uncommitted batch makes no other database call (API precondition)",
 		"deadlock is decided from goroutine wait states, not from elapsed time: every client goroutine parked in a sync lock / channel wait, none runnable, identical at two inspections 10 s apart; a run that merely takes long (300 s limit for programs that take milliseconds) is inconclusive")
@@ -377,6 +391,7 @@ func TestC09(t *testing.T) {
 			if kvh.Pct(t, 40, "premmap") {
 				c.Opt.IO = 1
 			}
+			c.PreBackup = kvh.Pct(t, 30+30*int(c.Opt.IO), "prebackup")
 		}
 		kvh.SetInFlight(&kvh.InFlight{Property: "C09", Case: func() any { return c }})
 		defer kvh.SetInFlight(nil)
